@@ -27,7 +27,7 @@ KNOWN = {}
 DECOS = ["require", "ensure", "snapshot", "invariant"]
 ENABLED = ["default", "True", "False", "SLOW"]
 KINDS = ["function", "async", "method", "staticmethod", "classmethod", "getter"]
-INV_KINDS = ["plain-class", "dbc-class"]
+INV_KINDS = ["plain-class", "dbc-class", "plain-subclass-of-invariant-class", "dbc-subclass-of-invariant-class"]
 MODES = [("normal", []), ("-O", ["-O"]), ("-OO", ["-OO"])]
 # "non-empty string" is the documented switch: strings that spell false, zero or blank are non-empty too
 SLOWS = [("unset", None), ("empty", ""), ("set", "1"), ("zero", "0"), ("false", "false"), ("blank", " "), ("word", "no")]
@@ -85,6 +85,16 @@ def eval_cell(deco, enabled, kind, base="bare"):
                 def m(self):
                     counters["body"] += 1
                     return 1
+        elif kind in ("plain-subclass-of-invariant-class", "dbc-subclass-of-invariant-class"):
+            # the class under the decorator already carries an (enabled, satisfied) invariant of its base and defines
+            # members of its own
+            base_cls = icontract.invariant(lambda self: True, enabled=True)(
+                type("P", (icontract.DBC,) if kind.startswith("dbc") else (), {"__init__": lambda self: setattr(self, "x", 1)}))
+
+            class K(base_cls):
+                def m(self):
+                    counters["body"] += 1
+                    return 1
         else:
             class K:
                 def __init__(self):
@@ -94,12 +104,12 @@ def eval_cell(deco, enabled, kind, base="bare"):
                     counters["body"] += 1
                     return 1
         before = set(vars(K))
-        init_before = K.__dict__["__init__"]
+        init_before = K.__dict__.get("__init__")
         m_before = K.__dict__["m"]
         dec = icontract.invariant(cond_self, **kw)
         K2 = dec(K)
         obs["identity"] = K2 is K
-        obs["vars_unchanged"] = set(vars(K)) == before and K.__dict__["__init__"] is init_before and K.__dict__["m"] is m_before
+        obs["vars_unchanged"] = set(vars(K)) == before and K.__dict__.get("__init__") is init_before and K.__dict__["m"] is m_before
         try:
             K2().m()
             obs["raised"] = None
